@@ -160,6 +160,15 @@ func (f *Field[T]) Sum(inputs ...*Element[T]) *Element[T] {
 		}
 	}
 	addOverflow := bits.Len(uint(len(inputs)))
+	if overflow+uint(addOverflow) > f.maxOverflow() {
+		// the limb-wise sum could exceed the native field: add one by one
+		// instead, which reduces the operands when there is no room left.
+		res := inputs[0]
+		for i := 1; i < len(inputs); i++ {
+			res = f.Add(res, inputs[i])
+		}
+		return res
+	}
 	limbs := make([]frontend.Variable, nbLimbs)
 	for i := range limbs {
 		limbs[i] = 0
